@@ -853,14 +853,24 @@ impl FrontendInternal {
         }
         self.check_state()?;
 
-        let mut buf: Vec<u8> = vec![0; hdr.get_size() as usize - mem::size_of::<T>()];
-        let (reply, body, bytes, files) = self.main_sock.recv_payload_into_buf::<T>(&mut buf)?;
+        // A backend reports failure with a reply that carries no payload, so the reply can be
+        // shorter than the request. Read header and body first, then exactly the payload size
+        // the reply declares; waiting for the request's payload size would block forever.
+        let expected = hdr.get_size() as usize - mem::size_of::<T>();
+        let (reply, body, files) = self.main_sock.recv_body::<T>()?;
         if !reply.is_reply_for(hdr)
-            || reply.get_size() as usize != mem::size_of::<T>() + bytes
             || files.is_some()
-            || !body.is_valid()
-            || bytes != buf.len()
+            || (reply.get_size() as usize) < mem::size_of::<T>()
+            || reply.get_size() as usize - mem::size_of::<T>() > expected
         {
+            return Err(VhostUserError::InvalidMessage);
+        }
+        let payload_size = reply.get_size() as usize - mem::size_of::<T>();
+        let (bytes, buf) = match payload_size {
+            0 => (0, Vec::new()),
+            len => self.main_sock.recv_data(len)?,
+        };
+        if !body.is_valid() || bytes != payload_size || bytes != expected {
             return Err(VhostUserError::InvalidMessage);
         }
 
